@@ -280,6 +280,19 @@ def execInstr (ris : Bool) (regs : Array Reg) (instr : String) : M Reg := do
     | 'U', _ => do
       let ps ← (if rest.isEmpty then [] else parts).mapM (regPt regs)
       pt (EPt.sum ps)
+    | 'K', [i, j, c] | 'J', [i, j, c] | 'W', [i, j, c] => do
+      -- conditional_select(a, b, c) / a.conditional_assign(b, c) / first component after conditional_swap
+      let p ← regPt regs i
+      let q ← regPt regs j
+      pt (if (← natRange 0 1 c) == 1 then q else p)
+    | 'Y', [i, j, c] => do
+      -- second component after conditional_swap
+      let p ← regPt regs i
+      let q ← regPt regs j
+      pt (if (← natRange 0 1 c) == 1 then p else q)
+    | 'L', [i, c] => do
+      let p ← regPt regs i
+      pt (if (← natRange 0 1 c) == 1 then EPt.neg p else p)
     | 'E', [i, j] => do
       let p ← regPt regs i
       let q ← regPt regs j
